@@ -1508,7 +1508,8 @@ TARGETS.append(dict(
             "next_j": dict(params=[("i", N), ("min_j", N)], ret=O(N), local_types={"j": O(N)})},
     while_bounds=["len(reversed_v_distribution) + len(reversed_u_distribution) + 1"],
     skeleton="...", conversions=["int(d)"],
-    obligations=OBLIGATIONS["check_assignment_feasibility"]))
+    obligations=OBLIGATIONS["check_assignment_feasibility"],
+    examples=['/-- the generated definition evaluated (non-vacuity of `1 ≤ d`; window `d = 1` fails, `d = 2` succeeds) -/\nexample : check_assignment_feasibility [0, 2, 1] [1, 1, 1] 1 = .ok false ∧\n    check_assignment_feasibility [0, 2, 1] [1, 1, 1] 2 = .ok true := by decide +kernel']))
 
 # ---- represent_distance_matrix_rows_as_distributions  ->  rowsAsDistributions
 TARGETS.append(dict(
@@ -1516,14 +1517,16 @@ TARGETS.append(dict(
     params=[("DX", MAT), ("max_d", N)], ret=MAT, skeleton="...",
     conversions=["determine_optimal_int_type(len(DX))", "int(max_d)", "np.zeros((len(DX), int(max_d) + 1), dtype=optimal_int_type)",
                  "np.imag(unique_distances).astype(optimal_int_type)", "np.real(unique_distances).astype(max_d.dtype)"],
-    obligations=OBLIGATIONS["represent_distance_matrix_rows_as_distributions"]))
+    obligations=OBLIGATIONS["represent_distance_matrix_rows_as_distributions"],
+    examples=['/-- the path on 5 vertices: entries `≤ 4`, and the generated definition evaluated -/\nexample : (∀ row ∈ [[0, 1, 2, 3, 4], [1, 0, 1, 2, 3], [2, 1, 0, 1, 2], [3, 2, 1, 0, 1], [4, 3, 2, 1, 0]], ∀ x ∈ row, x ≤ 4) ∧\n    represent_distance_matrix_rows_as_distributions [[0, 1, 2, 3, 4], [1, 0, 1, 2, 3], [2, 1, 0, 1, 2], [3, 2, 1, 0, 1], [4, 3, 2, 1, 0]] 4 =\n      .ok [[1, 1, 1, 1], [0, 1, 1, 2], [0, 0, 2, 2], [0, 1, 1, 2], [1, 1, 1, 1]] := by decide +kernel']))
 
 # ---- find_largest_size_bounded_curvature  ->  largestBoundedCurvature exactMul
 TARGETS.append(dict(
     func="find_largest_size_bounded_curvature", lean="find_largest_size_bounded_curvature",
     params=[("DX", MAT), ("diam_X", N), ("d", N)], ret=MAT, skeleton="...", conversions=["int(diam_X)"],
     while_bounds=["len(DX)"],
-    obligations=OBLIGATIONS["find_largest_size_bounded_curvature"]))
+    obligations=OBLIGATIONS["find_largest_size_bounded_curvature"],
+    examples=['/-- the path on 5 vertices is square; its largest 2-bounded curvature found by the loop keeps the two end points -/\nexample : Sq [[0, 1, 2, 3, 4], [1, 0, 1, 2, 3], [2, 1, 0, 1, 2], [3, 2, 1, 0, 1], [4, 3, 2, 1, 0]] ∧\n    find_largest_size_bounded_curvature [[0, 1, 2, 3, 4], [1, 0, 1, 2, 3], [2, 1, 0, 1, 2], [3, 2, 1, 0, 1], [4, 3, 2, 1, 0]] 4 2 = .ok [[0, 4], [4, 0]] := by decide +kernel']))
 
 # ---- find_unique_max_distributions: pinned as text; its meaning in the callers is the model's uniqueMaxDistributions
 FUMD_TEXT = (
@@ -1554,13 +1557,15 @@ TARGETS.append(dict(
 # ---- find_lb  ->  findLb exactMul exactMul
 TARGETS.append(dict(
     func="find_lb", lean="find_lb", params=[("DX", MAT), ("DY", MAT)], ret=N, skeleton="...", while_bounds=["d"],
-    obligations=OBLIGATIONS.get("find_lb", [])))
+    obligations=OBLIGATIONS.get("find_lb", []),
+    examples=["/-- path against star on 5 vertices: the hypotheses hold and the generated definition evaluates to `2` (the model's value) -/\nexample : Sq [[0, 1, 2, 3, 4], [1, 0, 1, 2, 3], [2, 1, 0, 1, 2], [3, 2, 1, 0, 1], [4, 3, 2, 1, 0]] ∧ Sq [[0, 1, 1, 1, 1], [1, 0, 2, 2, 2], [1, 2, 0, 2, 2], [1, 2, 2, 0, 2], [1, 2, 2, 2, 0]] ∧\n    find_lb [[0, 1, 2, 3, 4], [1, 0, 1, 2, 3], [2, 1, 0, 1, 2], [3, 2, 1, 0, 1], [4, 3, 2, 1, 0]] [[0, 1, 1, 1, 1], [1, 0, 2, 2, 2], [1, 2, 0, 2, 2], [1, 2, 2, 0, 2], [1, 2, 2, 2, 0]] = .ok 2 := by decide +kernel"]))
 
 # ---- construct_mapping  ->  constructMapping (the first image `np.random.choice(len(DY))` is the parameter y0)
 TARGETS.append(dict(
     func="construct_mapping", lean="construct_mapping", params=[("DX", MAT), ("DY", MAT), ("pi", L(N))], ret=T(L(N), N),
     extra_params=[("y0", N)], draw_param="y0", local_types={"distortion": N}, skeleton="...",
-    obligations=OBLIGATIONS.get("construct_mapping", [])))
+    obligations=OBLIGATIONS.get("construct_mapping", []),
+    examples=['/-- path into star with the permutation `[2, 0, 1, 4, 3]` and first image `1` -/\nexample : construct_mapping 1 [[0, 1, 2, 3, 4], [1, 0, 1, 2, 3], [2, 1, 0, 1, 2], [3, 2, 1, 0, 1], [4, 3, 2, 1, 0]] [[0, 1, 1, 1, 1], [1, 0, 2, 2, 2], [1, 2, 0, 2, 2], [1, 2, 2, 0, 2], [1, 2, 2, 2, 0]] [2, 0, 1, 4, 3] = .ok ([1, 2, 0, 1, 1], 2) := by decide +kernel']))
 
 # ---- find_ub_of_min_distortion  ->  findUbOfMinDistortion (the lazy generator of permutations and the first images are parameters)
 TARGETS.append(dict(
@@ -1592,7 +1597,8 @@ TARGETS.append(dict(
     func="estimate", lean="estimate", params=[("DX", MAT), ("DY", MAT), ("mapping_sample_size_order", None)], ret=T(Q, Q),
     extra_params=DRAW4, extra_args={"find_ub": [["permsXY", "y0sXY", "permsYX", "y0sYX"]]}, skip=EST_SKIP,
     skeleton="\n".join(EST_SKIP) + "\n...",
-    obligations=OBLIGATIONS.get("estimate", [])))
+    obligations=OBLIGATIONS.get("estimate", []),
+    examples=['/-- path against star with two recorded permutations for X→Y and one for Y→X: the draws meet `DrawsOk`, and the generated\n    definition evaluates to `(1, 1)` (lower bound `2/2`, upper bound `2/2`) -/\nexample : DrawsOk [[0, 1, 2, 3, 4], [1, 0, 1, 2, 3], [2, 1, 0, 1, 2], [3, 2, 1, 0, 1], [4, 3, 2, 1, 0]] [[0, 1, 1, 1, 1], [1, 0, 2, 2, 2], [1, 2, 0, 2, 2], [1, 2, 2, 0, 2], [1, 2, 2, 2, 0]] [[2, 0, 1, 4, 3], [0, 1, 2, 3, 4]] [1, 0] ∧\n    estimate [[2, 0, 1, 4, 3], [0, 1, 2, 3, 4]] [1, 0] [[4, 3, 2, 1, 0]] [2] [[0, 1, 2, 3, 4], [1, 0, 1, 2, 3], [2, 1, 0, 1, 2], [3, 2, 1, 0, 1], [4, 3, 2, 1, 0]] [[0, 1, 1, 1, 1], [1, 0, 2, 2, 2], [1, 2, 0, 2, 2], [1, 2, 2, 0, 2], [1, 2, 2, 2, 0]] = .ok (1, 1) := by decide +kernel']))
 
 
 BINDINGS = {KEY: [
@@ -1687,9 +1693,14 @@ HEADER = (
 
 TABLE_NOTE = ("`l[k]` (`getItem`), `l[k] = e` (`setItem`), `range` (`pyRange`), `next` of a generator expression (`nextWhere`), `len`, `max`,\n"
               "    `min`, `abs`, `int`, `list`, `l[::-1]` (`reverse`), `l[1:]` (`tail`), `M[(rows, cols)] = vals` (`scatter2`), `M[:, :-1]` (`dropLastCol`),\n"
-              "    `x.astype(t)` (identity) and the NumPy idioms "
-              + "; ".join("`%s` ↦ `%s`" % (p, l) for p, l, _ in IDIOM_DOC))
-PARAM_NOTE = "none so far"
+              "    `x.astype(t)` (identity), `np.inf` as the start of a running minimum (`none`, `minTop`, `leTop`), `0.5 * n` (`Rat`),\n"
+              "    and the NumPy idioms "
+              + ";\n    ".join("`%s` ↦ `%s`" % (p, l) for p, l, _ in IDIOM_DOC))
+PARAM_NOTE = ("the NumPy random generator -- `np.random.choice(len(DY))` in `construct_mapping` is its parameter `y0`; the lazy\n"
+              "    `permutations_generator` of `find_ub_of_min_distortion` is the list `permutations_generator` of what it yields (how many: the float\n"
+              "    computation of `n_mappings_to_sample`, pinned as text) and `y0s` the first images, one per `construct_mapping` call; `find_ub` /\n"
+              "    `estimate` receive one such pair per direction; contract `DrawsOk` (Lemmas/SrcBridgeMGH.lean) -- and `find_unique_max_distributions`,\n"
+              "    which is only pinned as text and stands for the model's `uniqueMaxDistributions` in its caller")
 
 
 def render_file(key, root):
@@ -1738,6 +1749,8 @@ def render_file(key, root):
             o.append("/-- %s -/" % doc)
             o.append("theorem %s%s :\n    %s := %s\n" % (name, (" " + binders) if binders else "", stmt, proof))
             names.append(name)
+        for ex in cfg.get("examples", []):
+            o.append(ex + "\n")
         o.append("/-- the body of the function, as `ast.unparse` prints it (nothing of it is translated) -/" if pin else
                  "/-- the body of the function with the translated statements as `...`, as `ast.unparse` prints it -/")
         o.append("def srcSkeleton_%s : String :=\n  %s" % (f, lean_str(res["skeleton"] or "")))
